@@ -56,7 +56,12 @@ def vm_expected(opts, chunks):
     for ch in chunks:
         if vm_matches(ch):
             try:
-                c.framebufferUpdateRequest()
+                if getattr(c, "width", None) is None or getattr(c, "height", None) is None:
+                    c.framebufferUpdateRequest()           # before ServerInit there is no geometry: whatever that does
+                else:
+                    # "answered with a full refresh request": non-incremental, whole desktop - written out here, not taken
+                    # from the defaults of the code under test
+                    c.transport.write(struct.pack("!BBHHHH", 3, 0, 0, 0, c.width, c.height))
             except Exception as e:  # noqa
                 trace.append(("cb", "raise:" + exc_class(e)))
                 break
